@@ -3,9 +3,9 @@
 From Coq Require Import List NArith.
 From Coq.Strings Require Import Byte.
 From Coq Require Import Extraction ExtrOcamlBasic.
-From GI Require Import Lib.Bytes Txtar.Txtar TxtarWrite.Path TxtarWrite.TxtarWrite.
+From GI Require Import Lib.Bytes Txtar.Txtar TxtarWrite.Path TxtarWrite.TxtarWrite TxtarWrite.Symlink.
 Extraction Language OCaml.
 Extraction "extracted/txtarwrite/model.ml" Byte.of_N Byte.to_N
   clean join dir_of is_abs parent_str resolve
   write write_gen created_mode extract savedir savedir_tree txtar_c entry_name savedir_entry unquote_names restored
-  parse format.
+  s_write parse format.
